@@ -155,7 +155,9 @@ class Check(Prop):
             must = inst_pub
             must_not = everything - inst_all - inst_pub - klass
         else:
-            lines.append("%s." % c)
+            n_inner = min(h.get("inner") or 0, len(h["classes"]))
+            in_inner = n_inner and c in {d["name"] for d in h["classes"][len(h["classes"]) - n_inner:]}
+            lines.append("%s%s." % ("Inn::" if in_inner else "", c))
             must = klass
             must_not = everything - klass - inst_all - inst_pub
         row = len(lines)
@@ -176,12 +178,15 @@ class Check(Prop):
         missing = sorted(must - got)
         foreign = sorted(got & must_not)
         base = {"form": "dot-next", "rkind": "hier-" + case["side"], "cls": c, "bind": True, "program": meta.with_rows(src)}
+        vs = []
         if missing:
-            return Verdict(dict(base, what="generated hierarchy, %s receiver of %s: completion misses %s" % (case["side"], c, missing[:6]), kind="missing", missing=missing[:12]),
-                           labels + ["mismatch"], nontrivial, key)
+            vs.append(dict(base, what="generated hierarchy, %s receiver of %s: completion misses %s" % (case["side"], c, missing[:6]), kind="missing", missing=missing[:12]))
         if foreign:
-            return Verdict(dict(base, what="generated hierarchy, %s receiver of %s: completion lists %s which it cannot answer" % (case["side"], c, foreign[:6]), kind="foreign",
-                                foreign=foreign[:12]), labels + ["mismatch"], nontrivial, key)
+            vs.append(dict(base, what="generated hierarchy, %s receiver of %s: completion lists %s which it cannot answer" % (case["side"], c, foreign[:6]), kind="foreign",
+                           foreign=foreign[:12]))
+        if vs:
+            # every way the case fails is handed on: a listed finding (first entry) must not hide another failure
+            return Verdict(dict(vs[0], also=vs[1:]), labels + ["mismatch"], nontrivial, key)
         return Verdict(None, labels, nontrivial, key)
 
     def evaluate(self, case, rt):
@@ -212,20 +217,24 @@ class Check(Prop):
         nontrivial = bool(must)
         missing = sorted(must - got)
         foreign = sorted(got & must_not)
+        vs = []
         if missing:
-            return Verdict({"what": "%s receiver %s (%s): completion misses %s (listed %d names)" % (case["kind"], case["recv"], case["form"], missing[:6], len(got)),
-                            "kind": "missing", "missing": missing[:12], "form": case["form"], "rkind": case["kind"], "cls": c, "bind": case["bind"],
-                            "program": meta.with_rows(src)}, labels + ["mismatch"], nontrivial, key)
+            vs.append({"what": "%s receiver %s (%s): completion misses %s (listed %d names)" % (case["kind"], case["recv"], case["form"], missing[:6], len(got)),
+                       "kind": "missing", "missing": missing[:12], "form": case["form"], "rkind": case["kind"], "cls": c, "bind": case["bind"],
+                       "program": meta.with_rows(src)})
         if foreign:
-            return Verdict({"what": "%s receiver %s (%s): completion lists %s which the receiver cannot answer" % (case["kind"], case["recv"], case["form"], foreign[:6]),
-                            "kind": "foreign", "foreign": foreign[:12], "form": case["form"], "rkind": case["kind"], "cls": c, "bind": case["bind"],
-                            "program": meta.with_rows(src)}, labels + ["mismatch"], nontrivial, key)
+            vs.append({"what": "%s receiver %s (%s): completion lists %s which the receiver cannot answer" % (case["kind"], case["recv"], case["form"], foreign[:6]),
+                       "kind": "foreign", "foreign": foreign[:12], "form": case["form"], "rkind": case["kind"], "cls": c, "bind": case["bind"],
+                       "program": meta.with_rows(src)})
         if case["kind"] != "user-class":
             ok_obj = len(self.obj & got) >= 0.8 * len(self.obj)
             if not ok_obj:
-                return Verdict({"what": "%s receiver %s (%s): Object/Kernel methods are not listed (%d of %d Object methods)" % (
+                vs.append({"what": "%s receiver %s (%s): Object/Kernel methods are not listed (%d of %d Object methods)" % (
                     case["kind"], case["recv"], case["form"], len(self.obj & got), len(self.obj)), "kind": "obj-kernel", "form": case["form"], "rkind": case["kind"],
-                    "cls": c, "bind": case["bind"], "program": meta.with_rows(src)}, labels + ["mismatch"], nontrivial, key)
+                    "cls": c, "bind": case["bind"], "program": meta.with_rows(src)})
+        if vs:
+            # every way the case fails is handed on: a listed finding (first entry) must not hide another failure
+            return Verdict(dict(vs[0], also=vs[1:]), labels + ["mismatch"], nontrivial, key)
         return Verdict(None, labels, nontrivial, key)
 
     def matchers(self):
